@@ -17,6 +17,33 @@ fn judge(name: &str, bytes: &[u8], want: &[i128]) -> Option<String> {
         Ok(k) => if k != want { Some(format!("{name}: top-level keys {k:?}, the CTAP specification assigns {want:?} (ascending, absent optional members omitted)")) } else { None },
     }
 }
+/// injected unknown / duplicate / missing members: unknown integer keys in 0..255 and unknown text keys are ignored (the message
+/// reads back the same, judged by serialising it again), a duplicated or missing required member is an error
+fn injected<T: serde::Serialize + serde::de::DeserializeOwned>(name: &str, bytes: &[u8], required: &[i128]) -> Option<String> {
+    let v: Value = ciborium::de::from_reader(bytes).ok()?;
+    let Value::Map(m) = v else { return None };
+    let enc = |m: &Vec<(Value, Value)>| ser(&Value::Map(m.clone()));
+    let mut with_unknown = m.clone();
+    with_unknown.insert(0, (Value::Integer(0x7f.into()), Value::Null));
+    with_unknown.push((Value::Text("noSuchMember".into()), Value::Integer(1.into())));
+    with_unknown.push((Value::Integer(0xfe.into()), Value::Array(vec![Value::Integer(1.into())])));
+    match ciborium::de::from_reader::<T, _>(&enc(&with_unknown)[..]) {
+        Err(e) => return Some(format!("{name}: unknown keys 0x7f, 0xfe and \"noSuchMember\" are not ignored: {e:?}")),
+        Ok(t) => if ser(&t) != bytes { return Some(format!("{name}: unknown keys change the message that is read")); },
+    }
+    for (i, (k, _)) in m.iter().enumerate() {
+        let Value::Integer(ki) = k else { continue };
+        let mut dup = m.clone();
+        dup.push(m[i].clone());
+        if ciborium::de::from_reader::<T, _>(&enc(&dup)[..]).is_ok() { return Some(format!("{name}: member {} given twice is accepted", i128::from(*ki))); }
+        if required.contains(&i128::from(*ki)) {
+            let mut missing = m.clone();
+            missing.remove(i);
+            if ciborium::de::from_reader::<T, _>(&enc(&missing)[..]).is_ok() { return Some(format!("{name}: required member {} missing, message accepted", i128::from(*ki))); }
+        }
+    }
+    None
+}
 fn ser<T: serde::Serialize>(v: &T) -> Vec<u8> { let mut b = Vec::new(); ciborium::ser::into_writer(v, &mut b).unwrap(); b }
 fn desc() -> PublicKeyCredentialDescriptor { PublicKeyCredentialDescriptor { ty: PublicKeyCredentialType::PublicKey, id: vec![1, 2, 3].into(), transports: None } }
 fn user() -> webauthn::PublicKeyCredentialUserEntity { webauthn::PublicKeyCredentialUserEntity { id: vec![9].into(), display_name: "d".into(), name: "n".into() } }
@@ -33,6 +60,7 @@ pub fn run(arg: &str) -> (bool, String) {
             let (bf, bm) = (ser(&full), ser(&min));
             push(judge("getAssertion request, all members", &bf, &[1, 2, 3, 4, 5, 6, 7]));
             push(judge("getAssertion request, required members only", &bm, &[1, 2, 5]));
+            push(injected::<get_assertion::Request>("getAssertion request", &bf, &[1, 2]));
             match ciborium::de::from_reader::<get_assertion::Request, _>(&bf[..]) {
                 Ok(r) => if r.rp_id != full.rp_id || r.client_data_hash != full.client_data_hash || r.allow_list.as_ref().map(|l| l.len()) != Some(1) || r.pin_protocol != Some(1) || r.pin_auth != full.pin_auth || !r.options.uv { push(Some("getAssertion request: deserialising its own bytes yields a different message".into())) },
                 Err(e) => push(Some(format!("getAssertion request: its own bytes are rejected: {e:?}"))),
@@ -49,6 +77,7 @@ pub fn run(arg: &str) -> (bool, String) {
             let (bf, bm) = (ser(&full), ser(&min));
             push(judge("getAssertion response, all members", &bf, &[1, 2, 3, 4, 5, 6, 7, 8]));
             push(judge("getAssertion response, required members only", &bm, &[2, 3]));
+            push(injected::<get_assertion::Response>("getAssertion response", &bf, &[2, 3]));
             match ciborium::de::from_reader::<get_assertion::Response, _>(&bf[..]) {
                 Ok(r) => if r.signature != full.signature || r.number_of_credentials != Some(2) || r.user_selected != Some(true) || r.large_blob_key != full.large_blob_key || r.credential.is_none() || r.user.is_none() { push(Some("getAssertion response: deserialising its own bytes yields a different message".into())) },
                 Err(e) => push(Some(format!("getAssertion response: its own bytes are rejected: {e:?}"))),
@@ -63,6 +92,7 @@ pub fn run(arg: &str) -> (bool, String) {
             let (bf, bm) = (ser(&full), ser(&min));
             push(judge("makeCredential request, all members", &bf, &[1, 2, 3, 4, 5, 6, 7, 8, 9]));
             push(judge("makeCredential request, required members only", &bm, &[1, 2, 3, 4, 7]));
+            push(injected::<make_credential::Request>("makeCredential request", &bf, &[1, 2, 3, 4]));
             match ciborium::de::from_reader::<make_credential::Request, _>(&bf[..]) {
                 Ok(r) => if r.client_data_hash != full.client_data_hash || r.rp.id != "example.com" || r.pub_key_cred_params.len() != 1 || r.pin_protocol != Some(1) || !r.options.rk || r.exclude_list.as_ref().map(|l| l.len()) != Some(1) { push(Some("makeCredential request: deserialising its own bytes yields a different message".into())) },
                 Err(e) => push(Some(format!("makeCredential request: its own bytes are rejected: {e:?}"))),
@@ -75,6 +105,7 @@ pub fn run(arg: &str) -> (bool, String) {
             let (bf, bm) = (ser(&full), ser(&min));
             push(judge("makeCredential response, all members", &bf, &[1, 2, 3, 4, 5, 6]));
             push(judge("makeCredential response, required members only", &bm, &[1, 2, 3]));
+            push(injected::<make_credential::Response>("makeCredential response", &bf, &[1, 2, 3]));
             match ciborium::de::from_reader::<make_credential::Response, _>(&bf[..]) {
                 Ok(r) => if r.fmt != "none" || r.ep_att != Some(false) || r.large_blob_key != full.large_blob_key { push(Some("makeCredential response: deserialising its own bytes yields a different message".into())) },
                 Err(e) => push(Some(format!("makeCredential response: its own bytes are rejected: {e:?}"))),
@@ -87,6 +118,7 @@ pub fn run(arg: &str) -> (bool, String) {
             let (bf, bm) = (ser(&full), ser(&min));
             push(judge("getInfo response, all members", &bf, &[1, 2, 3, 4, 5, 6, 9]));
             push(judge("getInfo response, required members only", &bm, &[1, 3]));
+            push(injected::<get_info::Response>("getInfo response", &bf, &[1, 3]));
             match ciborium::de::from_reader::<get_info::Response, _>(&bf[..]) { Ok(r) => if r != full { push(Some("getInfo response: deserialising its own bytes yields a different message".into())) }, Err(e) => push(Some(format!("getInfo response: its own bytes are rejected: {e:?}"))) }
             match ciborium::de::from_reader::<get_info::Response, _>(&bm[..]) { Ok(r) => if r != min { push(Some("getInfo response: deserialising its own bytes yields a different message".into())) }, Err(e) => push(Some(format!("getInfo response: its own bytes are rejected: {e:?}"))) }
         }
@@ -97,6 +129,7 @@ pub fn run(arg: &str) -> (bool, String) {
             let (bf, bm) = (ser(&full), ser(&min));
             push(judge("hmac-secret input, all members", &bf, &[1, 2, 3, 4]));
             push(judge("hmac-secret input, required members only", &bm, &[1, 2, 3]));
+            push(injected::<HmacGetSecretInput>("hmac-secret input", &bf, &[1, 2, 3]));
             match ciborium::de::from_reader::<HmacGetSecretInput, _>(&bf[..]) {
                 Ok(r) => if r.salt_enc != full.salt_enc || r.salt_auth != full.salt_auth || r.pin_uv_auth_protocol != Some(2) { push(Some("hmac-secret input: deserialising its own bytes yields a different message".into())) },
                 Err(e) => push(Some(format!("hmac-secret input: its own bytes are rejected: {e:?}"))),
